@@ -292,7 +292,7 @@ struct IsoWorld {
    }
 
    // compares the observed state with the state the specification expects.  actor == "" : every difference is the property's business
-   void CompareWithModel(const Snap & got, const J & exp, const std::string & actor, bool isDepart, const char * when)
+   void CompareWithModel(const Snap & got, const J & exp, const std::string & actor, bool isDepart, const char * when, bool skipHushed = false)
    {
       Snap e;
       for (size_t i=0; i<exp["tree"].size(); i++) e.tree[JPath(exp["tree"][i][(size_t)0])] = (uint32) exp["tree"][i][(size_t)1].i();
@@ -308,6 +308,9 @@ struct IsoWorld {
       for (int pass=0; pass<2; pass++) { const std::set<std::string> & a = pass ? le : lg; const std::set<std::string> & b = pass ? lg : le;
          for (std::set<std::string>::const_iterator i = a.begin(); i != a.end(); ++i) if (!b.count(*i)) {
             bool own = false;
+            if ((skipHushed)&&(i->compare(0, 7, "mirror ") == 0)) { // where a quiet change made a mirror lag, what the mirror holds depends on how much of the stream was handled before the cut
+               const std::string rest = i->substr(7); const size_t s1 = rest.find(' '), s2 = rest.find(' ', s1+1);
+               if (hush.count(std::make_pair(rest.substr(0, s1), rest.substr(s1+1, s2-s1-1)))) continue; }
             if ((!isDepart)&&(!actor.empty())) { const std::string & l = *i; size_t sp = l.find(' '); const std::string sect = l.substr(0, sp), rest = l.substr(sp+1);
                if ((sect == "tree")||(sect == "idx")) own = (rest.compare(0, aroot.size()+1, aroot+"/") == 0)||(rest.compare(0, aroot.size()+1, aroot+" ") == 0);
                else if (sect == "marks") {const size_t s2 = rest.find(' '); const std::string path = rest.substr(0, s2); const std::string who = rest.substr(s2+1, rest.find(' ', s2+1)-s2-1); own = (who == actor)||(path.compare(0, aroot.size()+1, aroot+"/") == 0)||(path == aroot);}
@@ -498,8 +501,8 @@ static void IsoAllCuts(const J & beh, int everyNth)
       // clients that lost subscriptions of their own do not exist here: only the departing session unsubscribes
       TakeView(iw, after, rest);
       {Snap none; for (size_t i=0; i+1<ns; i++) iw.NoteQuiet(steps[i]["cmd"], who, none, after.sn);}     // quiet commands in the stream: the mirrors may lag for the nodes they touched
+      iw.CompareWithModel(after.sn, steps[ns-1]["st"], who, true, when, true);     // (before the erase clauses: they forget a hushed node as soon as mirror and selection agree)
       CheckErased(iw, who, &before, after, when);
-      iw.CompareWithModel(after.sn, steps[ns-1]["st"], who, true, when);
       if (!iw.viol.empty()) {g_violCases++; J row = IsoRow(beh, iw, when); row.set("cut", J::Int((int64_t) cut)); row.set("mode", J::Str(mode ? "bytewise" : "onepiece")); RepJ(row); return;}
    }
    g_isoFollowed++;
